@@ -622,7 +622,10 @@ func c19prParamValue(pattern, name string, p c19prParam) string {
 			return url.PathEscape(real[pos:] + real[:pos])
 		}
 	case "pct":
-		pieces := []string{"%20", "%2F", "%3A", "%00", "%25", "%2e%2e", "%C0%AF", "%25%32%46", "%0d%0a", "%3a%3a", "%", "%zz", "%2"}
+		// doubly encoded special characters first (small variant numbers are drawn most often): the router decodes once, the generated
+		// wrappers decode the path parameter a second time, so these reach the handlers as a raw '[', ' ', ':', '/', NUL, '{', '%', '#', '?'
+		pieces := []string{"%255b", "%2520", "%253A", "%252F", "%2500", "%257B", "%2525", "%2523", "%253F", "%255D", "%2540", "%255C",
+			"%20", "%2F", "%3A", "%00", "%25", "%2e%2e", "%C0%AF", "%25%32%46", "%0d%0a", "%3a%3a", "%", "%zz", "%2"}
 		piece := pieces[v%len(pieces)]
 		pos := 0
 		if len(real) > 0 {
